@@ -93,6 +93,8 @@ Inductive obs := OInj (v : N) | OTpl (v : N) | OMedia (v : N).
 
 Inductive instr :=
 | Raise (e : err)                                   (* local: raise / re-raise; never a scheduling point *)
+| RootEnd (ids : list N)                            (* local: the `finally` of the root's _render_impl; ids = keys of the
+                                                       tree's post_render_callbacks so far; also a handler mark *)
 (* provide.py: ProvideNode.render, set_provided_context_var, get_injected_context_var *)
 | ProvPut (pid v : N)                               (* provide_cache[provide_id] = payload *)
 | CopyRefs (pid : N) (body : list instr)            (* all_reference_ids_before = all_reference_ids.copy(); then the body *)
@@ -110,6 +112,7 @@ Inductive instr :=
 (* id-keyed tables *)
 | CctxParent (p : N) | CctxPut (r : N) | CctxDel (r : N)
 | RendPut (r : N) | RendPop (r : N) | AttrPop (r : N) | AttrUpd (r : N) (kids : list N)
+| PurgeCctx (r : N) | PurgeRend (r : N) | PurgeAttr (r : N)   (* the root's finally: table.pop(tree_id, None) *)
 (* util/cache.py LRUCache.get / set / _remove / _add_to_front, line by line *)
 | GHas (k : N) (ntags : nat) | GNode (k : N) | GRet (a : N)
 | SOff (k : N) | SHas (k : N) | SNode (k : N) | SVal (a k : N) | SFull (k : N) | STail (k : N) | SDel (l : N) | SPut (k : N)
@@ -125,6 +128,7 @@ Inductive instr :=
 Definition lbl (i : instr) : N :=
   match i with
   | Raise _ => 0
+  | RootEnd _ => 0
   | ProvPut _ _ => 1
   | CopyRefs _ _ => 2
   | SelfRef _ => 3
@@ -189,6 +193,9 @@ Definition lbl (i : instr) : N :=
   | MReadJs _ => 61
   | McPut _ _ => 62
   | McRet _ => 63
+  | PurgeCctx _ => 64
+  | PurgeRend _ => 65
+  | PurgeAttr _ => 66
   end.
 
 Inductive res :=
@@ -206,6 +213,10 @@ Definition code_addfront (a : N) : list instr := [AfNext a; AfPrev a; AfTest a].
 Fixpoint code_parse (ntags : nat) : list instr :=
   match ntags with O => [] | S n => NsHas :: code_parse n end.
 
+(* the root's `finally`: for tree_id in list(post_render_callbacks): pop it from the three tables, unregister it *)
+Definition code_purge (ids : list N) : list instr :=
+  flat_map (fun r => [PurgeCctx r; PurgeRend r; PurgeAttr r; UnInAll r]) ids.
+
 (* how often the component-relative path still re-resolves: resolve_media_file maps p to dir/p while that file exists *)
 Definition resolve_path (depth p : N) : N := if N.ltb p depth then N.succ p else p.
 
@@ -219,6 +230,7 @@ Definition exec (i : instr) (g : G) : res :=
   let keyerr := RRaise KeyError g in
   match i with
   | Raise e => RRaise e g
+  | RootEnd ids => nxt (code_purge ids)
   (* ---- provide ---- *)
   | ProvPut pid v => RNext (with_ps g (set_prov p (aput pid v (prov p)))) [] []
   | CopyRefs pid body => nxt (SelfRef pid :: body ++ [ProvEnd pid (allrefs p)])
@@ -287,6 +299,9 @@ Definition exec (i : instr) (g : G) : res :=
   | RendPop r => if amem r (rend t) then RNext (with_ts g (set_rend t (aremove r (rend t)))) [] [] else keyerr
   | AttrPop r => RNext (with_ts g (set_attrs t (aremove r (attrs t)))) [] []
   | AttrUpd r kids => RNext (with_ts g (set_attrs t (fold_left (fun acc k => aput k 1 acc) kids (attrs t)))) [] []
+  | PurgeCctx r => RNext (with_ts g (set_cctx t (aremove r (cctx t)))) [] []
+  | PurgeRend r => RNext (with_ts g (set_rend t (aremove r (rend t)))) [] []
+  | PurgeAttr r => RNext (with_ts g (set_attrs t (aremove r (attrs t)))) [] []
   (* ---- LRU ---- *)
   | GHas k ntags =>
       if amem k (ldict c) then nxt [GNode k]
@@ -352,11 +367,13 @@ Record thread := { code : list instr; out : list obs; tr : list N (* labels exec
 
 Definition mk_thread (c : list instr) : thread := {| code := c; out := []; tr := []; failed := None |}.
 
-(* unwinding: drop instructions up to the innermost active provide body; its except branch runs, then re-raises *)
+(* unwinding: drop instructions up to the innermost active provide body (its except branch runs, then re-raises) or the
+   end of the root render (its finally runs, then the exception goes on) *)
 Fixpoint unwind (e : err) (c : list instr) : option (list instr) :=
   match c with
   | [] => None
   | ProvEnd pid before :: r => Some (Diff pid before :: CcHasRef pid :: Raise e :: r)
+  | RootEnd ids :: r => Some (code_purge ids ++ Raise e :: r)
   | _ :: r => unwind e r
   end.
 
@@ -366,12 +383,30 @@ Definition raise_in (e : err) (rest : list instr) (o : list obs) (l : list N) : 
   | None => {| code := []; out := o; tr := l; failed := Some e |}
   end.
 
-(* a pending local raise is executed together with the action before it *)
-Definition settle (th : thread) : thread :=
-  match code th with
-  | Raise e :: rest => raise_in e rest (out th) (tr th)
-  | _ => th
+(* local steps (a pending raise, the end of a root render) are executed together with the action before them *)
+Fixpoint settle_n (n : nat) (th : thread) : thread :=
+  match n with
+  | O => th
+  | S n' =>
+      match code th with
+      | Raise e :: rest => settle_n n' (raise_in e rest (out th) (tr th))
+      | RootEnd ids :: rest =>
+          settle_n n' {| code := code_purge ids ++ rest; out := out th; tr := tr th; failed := failed th |}
+      | _ => th
+      end
   end.
+Definition settle (th : thread) : thread := settle_n (2 * length (code th) + 2) th.
+
+(* `post_render_callbacks[render_id] = on_component_rendered` follows component_context_cache[render_id] = ... without any
+   other action in between: the id joins the callbacks of the render tree = the argument of the pending RootEnd *)
+Fixpoint add_cb (r : N) (c : list instr) : list instr :=
+  match c with
+  | [] => []
+  | RootEnd ids :: rest => RootEnd (ids ++ [r]) :: rest
+  | i :: rest => i :: add_cb r rest
+  end.
+Definition after_instr (i : instr) (rest : list instr) : list instr :=
+  match i with CctxPut r => add_cb r rest | _ => rest end.
 
 Definition step_thread (g : G) (th : thread) : G * thread :=
   match code th with
@@ -379,7 +414,8 @@ Definition step_thread (g : G) (th : thread) : G * thread :=
   | i :: rest =>
       match exec i g with
       | RNext g' push o =>
-          (g', settle {| code := push ++ rest; out := out th ++ o; tr := lbl i :: tr th; failed := failed th |})
+          (g', settle {| code := push ++ after_instr i rest; out := out th ++ o; tr := lbl i :: tr th;
+                         failed := failed th |})
       | RRaise e g' => (g', settle (raise_in e rest (out th) (lbl i :: tr th)))
       end
   end.
@@ -425,18 +461,18 @@ Fixpoint direct_ids_item (it : item) : list N :=
 Definition direct_ids (l : list item) : list N :=
   (fix go (l : list item) : list N := match l with [] => [] | x :: r => direct_ids_item x ++ go r end) l.
 
-(* Component._render_impl up to the placeholder / component_post_render entry *)
+(* Component._render_impl up to the placeholder / component_post_render entry (order of the code after fix 51f6eaa:
+   parent lookup, user code, template, and only then registration and the context-cache entry) *)
 Definition prep (parent : option N) (env : list (N * N)) (rid : N) (tpl : option N) (inj : option N) (fail : bool)
            (ntags : nat) : list instr :=
   (match parent with Some q => [CctxParent q] | None => [] end) ++
-  [RegEmpty rid (map snd env); CctxPut rid] ++
   (match inj with
    | None => []
    | Some key => match alookup key env with Some pid => [Inject pid] | None => [Raise KeyError] end
    end) ++
   (if fail then [Raise Boom] else []) ++
   (match tpl with Some k => [GHas k ntags] | None => [] end) ++
-  [RendPut rid].
+  [RegEmpty rid (map snd env); CctxPut rid; RendPut rid].
 
 (* gen parent env item = (code run where the tag stands, code run later by the root's post-render queue) *)
 Fixpoint gen (parent : option N) (env : list (N * N)) (it : item) {struct it} : list instr * list instr :=
@@ -452,7 +488,7 @@ Fixpoint gen (parent : option N) (env : list (N * N)) (it : item) {struct it} : 
       let pre := prep parent env rid tpl inj fail (length (direct_ids body)) in
       match parent with
       | Some _ => (pre, proc)                 (* nested: placeholder now, rendered by the root's queue *)
-      | None => (pre ++ proc, [])             (* root: component_post_render runs the queue at once *)
+      | None => (pre ++ proc ++ [RootEnd []], [])   (* root: runs the queue at once, then forgets its tree *)
       end
   | IProv key pid val body =>
       let env' := aput key pid env in
